@@ -19,12 +19,18 @@ pub(crate) fn check_rabin_params(
     chunk_min_size: usize,
     chunk_max_size: usize,
 ) -> RusticResult<()> {
-    if (chunk_size & (chunk_size - 1)) != 0 {
+    if chunk_size == 0 || (chunk_size & (chunk_size - 1)) != 0 {
         return Err(RusticError::new(
             ErrorKind::Unsupported,
             "Chunk size must be a power of 2 for the rabin chunker. chunk size = {chunk_size}.",
         )
         .attach_context("chunk_size", chunk_size.to_string()));
+    }
+    if chunk_min_size == 0 {
+        return Err(RusticError::new(
+            ErrorKind::Unsupported,
+            "Chunk min size must be larger than 0.",
+        ));
     }
     if chunk_min_size > chunk_size {
         return Err(RusticError::new(
@@ -115,12 +121,12 @@ impl<R: Read + Send> Iterator for ChunkIter<R> {
         let mut min_size = self.min_size;
         let mut vec = Vec::with_capacity(self.size_hint.min(min_size));
 
-        // check if some bytes exist in the buffer and if yes, use them
-        let open_buf_len = self.buf.len() - self.pos;
+        // check if some bytes exist in the buffer and if yes, use them (but not more than min_size)
+        let open_buf_len = (self.buf.len() - self.pos).min(min_size);
         if open_buf_len > 0 {
             vec.resize(open_buf_len, 0);
-            vec.copy_from_slice(&self.buf[self.pos..]);
-            self.pos = self.buf.len();
+            vec.copy_from_slice(&self.buf[self.pos..self.pos + open_buf_len]);
+            self.pos += open_buf_len;
             min_size -= open_buf_len;
         }
 
@@ -146,9 +152,12 @@ impl<R: Read + Send> Iterator for ChunkIter<R> {
             return if vec.is_empty() { None } else { Some(Ok(vec)) };
         }
 
+        // prefill the window with (up to) the last 64 bytes; chunks can be shorter than the window
+        let prefill_start = vec.len().saturating_sub(64);
+        self.rabin.reset();
         _ = self
             .rabin
-            .reset_and_prefill_window(&mut vec[vec.len() - 64..vec.len()].iter().copied());
+            .prefill_window(&mut vec[prefill_start..vec.len()].iter().copied());
 
         loop {
             if vec.len() >= self.max_size {
